@@ -45,6 +45,9 @@ CHECKS["C14"] = dict(cat="model_checking", tech="exhaustive enumeration of candi
 CHECKS["C10"] = dict(cat="exploration", tech="exhaustive enumeration of reference scenarios (reference kind x addressing form x target situation x document order), one small database per scenario loaded through the real loader, marker-based resolution model",
    text="43 ODXLINK reference kinds x 10 addressing forms x every subset of defining/importing layers x document orders, layer/comparam-document references, and 14 SNREF kinds x owner x defining-layer subsets x NOT-INHERITED flags incl. retarget_snrefs: the resolved attribute must carry the marker the reference model predicts, or strict-mode loading must fail where it says so (three-valued).",
    note="Trusted: odxmodel/reflinks.py (fragment and import semantics as adjudicated in DESIGN.md 5/C10). Duplicate IDs inside one deciding fragment and SNREFs into imported layers are DON'T-CARE.", ref="5/C10")
+CHECKS["C17"] = dict(cat="model_checking", tech="exhaustive enumeration of all operation sequences (length <= 3/4) over a menu of mode-sensitive operations x every mode assignment, flipping the process-wide flag at run time; outcomes compared with fresh-process baselines; plus the codec corpus in both modes",
+   text="Every sequence of up to 3 (4) operations from an 11-operation menu (one odxraise-based problem per module family: unknown parameter, out-of-range value, invalid UTF-8, unknown DTC, unknown MUX case, PHYS-CONST mismatch, wrong static-field count, too short MIN-MAX value, dangling reference, unresolvable SNREF, plus a valid control) under every assignment of {strict, lenient} to the steps is executed in one process that flips odxtools.exceptions.strict_mode; each step must behave like a fresh process in that mode; menu problems must be errors in strict and downgraded in lenient mode; every strict success of the codec corpus must give the identical result in lenient mode.",
+   note="Trusted: the menu's classification as downgradable (read from the code). Not every odxraise call site is covered (stated in DESIGN.md section 6).", ref="5/C17")
 NOT_BUILT_REASON = "check not built yet in this revision of /verif (design in DESIGN.md section 5); not claimed"
 
 def main():
